@@ -10,6 +10,7 @@ import VK.Model.Veto
 import VK.Model.Replay
 import VK.Model.Metric
 import VK.Model.BallotGraph
+import VK.Model.BallotGraphRec
 import VK.Model.Loaders
 import VK.Model.Interval
 import VK.Model.Dist
@@ -332,6 +333,12 @@ def handle (j : Json) : D Json := do
     pure (Json.mkObj [("ok", Json.mkObj [
       ("nodes", .arr ((specNodes n).map jCands).toArray),
       ("edges", .arr ((specEdges n).map (fun e => Json.arr #[jCands e.1, jCands e.2])).toArray)])])
+  | "ballot_graph_rec" => do
+    let n ← getNat (← field j "n")
+    let g := buildGraph n
+    pure (Json.mkObj [("ok", Json.mkObj [
+      ("nodes", .arr (g.nodes.eraseDups.map jCands).toArray),
+      ("edges", .arr ((recEdgesCanon g).map (fun e => Json.arr #[jCands e.1, jCands e.2])).toArray)])])
   | "node_weights" => do
     let n ← getNat (← field j "n")
     let fix ← getBool (fieldD j "fix_short" (.bool true))
